@@ -69,7 +69,10 @@ class Tree:
     def conditions(self, n, stop=None):
         """[(cond_node, polarity)] of the If ancestors of n (innermost first). A node inside the
         condition itself is not guarded by it. Match arms: (match_node, arm_index) as cond with
-        polarity 'arm'."""
+        polarity 'arm'.
+        An earlier statement `if c { ..; continue }` (no else) of an enclosing block is the same as nesting the rest of that
+        block under `!c`: it contributes (c, False). A `continue` (or labelled break out of the block) buried deeper in an
+        earlier statement contributes (stmt, 'opaque'): the node is reached under a condition that is not modelled."""
         out = []
         child = n
         for a in self.ancestors(n):
@@ -84,8 +87,42 @@ class Tree:
                 for i, arm in enumerate(a["arms"]):
                     if self.contains(arm["body"], child):
                         out.append((a, ("arm", i)))
+            elif a["k"] == "Block":
+                for st in a["stmts"]:
+                    if st is child:
+                        break
+                    c_ = self._continue_guard(st)
+                    if c_ is not None:
+                        out.append((c_, False))
+                    elif self._has_continue(st):
+                        out.append((st, "opaque"))
             child = a
         return out
+
+    @staticmethod
+    def _continue_guard(st):
+        """the condition c of a statement `if c { ...; continue }` without else (the then-branch ends in `continue`)"""
+        if st["k"] != "If" or "e" in st:
+            return None
+        t = st["t"]
+        while t["k"] == "Block":
+            last = t.get("expr")
+            if last is None and t["stmts"]:
+                last = t["stmts"][-1]
+            if last is None:
+                return None
+            t = last
+        return st["c"] if t["k"] == "Continue" else None
+
+    def _has_continue(self, st):
+        """a `continue` inside st that leaves st (its target loop is not inside st)"""
+        if in_log_macro(st):
+            return False
+        inner_loops = {x["id"] for x in walk(st) if x["k"] == "Loop" and "id" in x}
+        for x in walk(st):
+            if x["k"] == "Continue" and x.get("target") not in inner_loops and not in_log_macro(x):
+                return True
+        return False
 
     def enclosing_loops(self, n):
         return [a for a in self.ancestors(n) if a["k"] == "Loop"]
